@@ -2,6 +2,7 @@ import OmplModel.Proofs.ControlRRT
 import OmplModel.Proofs.ControlSST
 import OmplModel.Proofs.ControlEST
 import OmplModel.Proofs.ControlKPIECE
+import OmplModel.Proofs.ControlPDST
 import OmplModel.Model.ControlExtra
 import OmplModel.Proofs.ControlSamplerReal
 /-!
@@ -1124,5 +1125,160 @@ theorem stepCount_truncation_fails :
     durToStepsR ((6 - 1 / 2 ^ 50) * (7 / 10)) (7 / 10) = 6 ∧
     ⌊((6 - 1 / 2 ^ 50) * (7 / 10) : ℝ) / (7 / 10)⌋ = 5 :=
   trunc_witness
+
+/-! ## control::PDST::solve
+
+`Model/CPDST.lean`: the tree is NOT append-only — `addMotion` cuts an existing motion at a cell
+boundary (the head becomes a new motion that takes over the parent, the tail is rewritten in place),
+and new motions start at a random point inside their parent's segment.  Arithmetic-free (any
+`Num α`).  `hrng`: `rng_.uniformInt(1, hi)` answers within `[1, hi]` for `hi ≥ 1` (the model does not clamp). -/
+
+section CPDST
+variable {α ρ : Type} [Num α]
+
+/-- **every PDST motion is a sound segment, at every interruption point, splits included.**  A
+start motion is a valid start state (`dur = 0`, no control, no parent).  Any other motion carries a
+control `u` and an identity `ctl`, its end state is `u` applied `dur` times to its start state with
+every intermediate state valid (and the start state valid), and it hangs on an existing parent:
+either as the *tail* after its split head (same `ctl`, same control, starts where the head stops),
+or — with a different `ctl` — its start state lies on the parent's split chain
+(`CPDST.OnChain`: on the parent's own segment, `propagate parent.start u_p j` with `j ≤ dur`, or on
+the segment of a same-`ctl` ancestor, i.e. on a head cut off the parent by a later split; for a
+start-motion parent it is that state).  (`1 ≤ dur` holds when `minControlDuration ≥ 1`.) -/
+theorem pdst_segments_sound (P : CPDST.Problem S U α ρ)
+    (hrng : ∀ g hi, 1 ≤ hi → 1 ≤ (P.rngInt1 g hi).1 ∧ (P.rngInt1 g hi).1 ≤ hi) (g : ρ) (starts : List S)
+    (draws : List (CPDST.Draw S U)) (i : Nat) (m : CPDST.PMotion S U α)
+    (h : (CPDST.solve P g starts draws).final.motions[i]? = some m) :
+    (m.control = none ∧ m.ctl = none ∧ m.dur = 0 ∧ m.start = m.stop ∧ m.start ∈ starts ∧
+      P.valid m.start = true ∧ m.parent = none) ∨
+    (∃ u, m.control = some u ∧ (∃ c, m.ctl = some c) ∧ (1 ≤ P.minSteps → 1 ≤ m.dur) ∧
+      m.stop = propagate P.step m.start u m.dur ∧
+      (∀ j, 1 ≤ j → j ≤ m.dur → P.valid (propagate P.step m.start u j) = true) ∧ P.valid m.start = true ∧
+      ∃ p pm, m.parent = some p ∧ (CPDST.solve P g starts draws).final.motions[p]? = some pm ∧
+        ((m.ctl = pm.ctl ∧ m.start = pm.stop ∧ m.control = pm.control) ∨
+         (m.ctl ≠ pm.ctl ∧ CPDST.OnChain P.step (CPDST.solve P g starts draws).final.motions p m.start))) :=
+  (CPDST.solve_good P hrng g starts draws).1.seg i m h
+
+/-- control identities are fresh: every `ctl` in the tree is below the counter, so a new motion
+never shares its `ctl` with its parent (which is what lets `findDurationAndAncestor` recognise split
+chains by `ctl` equality) -/
+theorem pdst_ctl_fresh (P : CPDST.Problem S U α ρ)
+    (hrng : ∀ g hi, 1 ≤ hi → 1 ≤ (P.rngInt1 g hi).1 ∧ (P.rngInt1 g hi).1 ≤ hi) (g : ρ) (starts : List S)
+    (draws : List (CPDST.Draw S U)) (i : Nat) (m : CPDST.PMotion S U α) (c : Nat)
+    (h : (CPDST.solve P g starts draws).final.motions[i]? = some m) (hc : m.ctl = some c) :
+    c < (CPDST.solve P g starts draws).final.nextCtl :=
+  (CPDST.solve_good P hrng g starts draws).1.fresh i m c h hc
+
+/-- **an exact PDST solution is a goal motion** (the class of seeded change C02-s1): status `exact`
+⇒ `lastGoalMotion_` exists in the tree and its end state satisfies the goal; status `approximate`
+⇒ `isApproximate` is still set. -/
+theorem pdst_exact_goal (P : CPDST.Problem S U α ρ)
+    (hrng : ∀ g hi, 1 ≤ hi → 1 ≤ (P.rngInt1 g hi).1 ∧ (P.rngInt1 g hi).1 ≤ hi) (g : ρ) (starts : List S)
+    (draws : List (CPDST.Draw S U)) :
+    ((CPDST.solve P g starts draws).status = .exact →
+      ∃ l m, (CPDST.solve P g starts draws).final.lastGoal = some l ∧
+        (CPDST.solve P g starts draws).final.motions[l]? = some m ∧ (P.goal m.stop).1 = true) ∧
+    ((CPDST.solve P g starts draws).status = .approximate →
+      (CPDST.solve P g starts draws).final.isApprox = true) ∧
+    (∀ l, (CPDST.solve P g starts draws).final.lastGoal = some l →
+      ∃ m, (CPDST.solve P g starts draws).final.motions[l]? = some m) := by
+  have hg := (CPDST.solve_good P hrng g starts draws).2
+  have hs := CPDST.solve_status P g starts draws
+  exact ⟨fun he => hg.2 (hs.2.1 he), hs.2.2.1, hg.1⟩
+
+/-- **status and `lastGoalMotion_`**: exact or approximate exactly when a goal motion was recorded;
+a path is reported only then. -/
+theorem pdst_status (P : CPDST.Problem S U α ρ) (g : ρ) (starts : List S) (draws : List (CPDST.Draw S U)) :
+    (((CPDST.solve P g starts draws).status = .exact ∨ (CPDST.solve P g starts draws).status = .approximate) ↔
+      (CPDST.solve P g starts draws).final.lastGoal.isSome = true) ∧
+    ((CPDST.solve P g starts draws).path.isSome = true →
+      (CPDST.solve P g starts draws).final.lastGoal.isSome = true) :=
+  ⟨(CPDST.solve_status P g starts draws).1, (CPDST.solve_status P g starts draws).2.2.2⟩
+
+/- NOT PROVED in this round (no `_partial` theorem is offered: nothing weaker was established):
+
+   theorem pdst_solution_replays (hclose : ∀ a b, P.close a b = true → a = b)
+       (hrefl : ∀ a, P.close a a = true) (hmin : 1 ≤ P.minSteps) (hrng …)
+       (h : (CPDST.solve P g starts draws).path = some p) :
+       ∃ s0 rest, p.states = s0 :: rest ∧ s0 ∈ starts ∧ P.valid s0 = true ∧
+         rest.length = p.controls.length ∧ p.steps.length = p.controls.length ∧
+         ReplayOK P.step P.valid s0 (segs rest p.controls p.steps)
+
+   theorem pdst_exact_path_in_goal : path = some p ∧ status = .exact →
+       ∃ last, p.states.getLast? = some last ∧ (P.goal last).1 = true
+
+   What is available for them: `pdst_segments_sound` (with `OnChain`) is exactly the hypothesis the
+   soundness of `findDA`/`chainUp` needs.  What is missing: the lemma "`OnChain ms mi s` and
+   `findDA … mi = some (d, a)` ⇒ `s = propagate ms[a].start u d` with all `d` steps valid" (needs
+   `hclose`; and `hrefl`, `hmin` so that a miss in one piece really means the state is further up), and
+   the induction over `assembleLoop` / the index arithmetic of `assemble`. -/
+
+/-- a fixed-point toy `Num Int` (scale 10, so that the `0.5` of `Cell::subdivide` exists) for kernel
+evaluation of the arithmetic-free control flow — not a model of `double` -/
+@[reducible] def numFix : Num Int where
+  add := (· + ·)
+  sub := (· - ·)
+  mul a b := a * b / 10
+  div a b := a * 10 / b
+  neg := (- ·)
+  lt := (· < ·)
+  le := (· ≤ ·)
+  ofNat n := 10 * Int.ofNat n
+  ofDec m e := 10 * Int.ofNat m / Int.ofNat (10 ^ e)
+  pi := 31
+  abs x := Int.ofNat x.natAbs
+  sqrt x := x
+  sin _ := 0
+  cos _ := 10
+  acos _ := 0
+  atan2 _ _ := 0
+  floor x := x / 10 * 10
+  ceil x := x
+  fmod x y := x.tmod y
+  decLt a b := Int.decLt a b
+  decLe a b := Int.decLe a b
+  toInt x := x / 10
+  ofInt i := 10 * i
+
+end CPDST
+
+/-- integrator on `Nat`, valid below 16, goal 13, projection = identity, bounds `[0, 16]` -/
+def pdN : @CPDST.Problem Nat Nat Int Nat :=
+  { step := stepN, valid := fun s => decide (s < 16), dist := fun a b => 10 * Int.ofNat (distN a b),
+    close := fun a b => decide (a = b), inf := 10000,
+    goal := fun s => (decide (s = 13), 10 * Int.ofNat (distN s 13)), goalSample := 13,
+    goalSampleable := false, canSample := false, goalBias := 0, minSteps := 1,
+    project := fun s => #[10 * Int.ofNat s], ndim := 1, lo := #[0], hi := #[160],
+    rng01 := fun g => (0, g + 1), rngInt1 := fun g hi => (g % hi + 1, g + 1) }
+
+def pdScript : List (CPDST.Draw Nat Nat) :=
+  [{ sample := 4, ctl := [(1, 4)] }, { sample := 12, ctl := [(2, 6)] }, { sample := 13, ctl := [(1, 3)] }]
+
+def pdRes (n : Nat) : CPDST.Result Nat Nat Int Nat := @CPDST.solve Nat Nat Int Nat numFix pdN 0 [0] (pdScript.take n)
+
+/-- non-vacuity (kernel evaluation): after two draws the motion `0 → 12` (control 2, 6 steps) has been
+cut twice — tail `8 → 12` (index 2, parent 3), heads `4 → 8` (index 3, parent 4) and `0 → 4` (index 4,
+parent the root), all with `ctl = 1`; the third draw starts at state 10, *inside* the tail, reaches the
+goal 13, and the reported path is `0 -[2, 5 steps]-> 10 -[1, 3 steps]-> 13`. -/
+example :
+    (pdRes 2).final.motions.toList.map (fun m => (m.start, m.stop, m.dur)) =
+      [(0, 0, 0), (0, 4, 4), (8, 12, 2), (4, 8, 2), (0, 4, 2)] ∧
+    (pdRes 2).final.motions.toList.map (fun m => (m.parent, m.ctl, m.isSplit)) =
+      [(none, none, false), (some 0, some 0, false), (some 3, some 1, false), (some 4, some 1, true),
+       (some 0, some 1, true)] ∧
+    (pdRes 3).status = .exact ∧
+    (pdRes 3).path.map (fun p => (p.states, p.controls, p.steps)) = some ([0, 10, 13], [2, 1], [5, 3]) ∧
+    (pdRes 3).final.lastGoal = some 5 := by decide +kernel
+
+/-- `hrng` holds for the toy generator -/
+theorem pdN_hrng : ∀ g hi, 1 ≤ hi → 1 ≤ (pdN.rngInt1 g hi).1 ∧ (pdN.rngInt1 g hi).1 ≤ hi := by
+  intro g hi h
+  show 1 ≤ g % hi + 1 ∧ g % hi + 1 ≤ hi
+  have := Nat.mod_lt g h
+  omega
+
+example := @pdst_segments_sound Nat Nat Int Nat numFix pdN pdN_hrng 0 [0] pdScript
+example := @pdst_exact_goal Nat Nat Int Nat numFix pdN pdN_hrng 0 [0] pdScript
+example := @pdst_status Nat Nat Int Nat numFix pdN 0 [0] pdScript
 
 end OmplModel.Props.C02
